@@ -16,6 +16,8 @@
                                   stream event (data, FIN, reset, hook completion) is addressed to the client stream or
                                   the server stream of the one layer registered under the event's id
   * stream_commands_address_registered_streams   (all events, incl. the connection-close fan-out)
+  * allocated_ids_unique_with_own_connect, no_data_or_reset_after_fin_or_reset_with_own_connect, failed_own_connect_ends_layer:
+                                  the same with the layer's own OpenConnection on Start (pause queue + replay)
   * no_data_or_reset_after_fin_or_reset   whole history: nothing is sent on a (connection, stream id) after its FIN / reset
   * pairing_is_stable_forever, signals_reach_only_pair_forever, history_addresses_registered_streams
                                   the same, lifted to whole histories (induction over the event list)
@@ -339,6 +341,114 @@ theorem no_data_or_reset_after_fin_or_reset (ins : List QIn) (pre post : List QO
   refine ⟨?_, ?_⟩
   · intro d fin e; subst e; simp [sendAt, sendOn, target] at hx'
   · intro code e; subst e; simp [sendAt, sendOn, target] at hx'
+
+/-! ### with the layer's own `OpenConnection` (events buffered while it waits, replayed afterwards) -/
+
+private theorem run_one (m : Mux σ) (i : QIn) : run ops m [i] = step ops m i := by
+  rw [run_cons]; simp [run]
+
+private theorem replay_is_run_of_prefix (m : Mux σ) (l : List QIn) : ∃ k, replay ops m l = run ops m (l.take k) := by
+  induction l generalizing m with
+  | nil => exact ⟨0, by simp [replay, run]⟩
+  | cons i t ih =>
+    unfold replay
+    simp only
+    split
+    · exact ⟨1, by simp [run_one]⟩
+    · obtain ⟨k, hk⟩ := ih (step ops m i).1
+      refine ⟨k + 1, ?_⟩
+      rw [List.take_succ_cons, run_cons, ← hk]
+
+private theorem stepQ_keeps (mq : MuxQ σ) (x : QInQ) (hist : List QOut) (h : MuxInv mq.m)
+    (hH : Hist mq.m.streams hist) :
+    MuxInv (stepQ ops mq x).1.m ∧ Hist (stepQ ops mq x).1.m.streams (hist ++ (stepQ ops mq x).2) := by
+  unfold stepQ
+  cases x with
+  | ev i =>
+    simp only
+    split
+    · exact ⟨h, by simpa using hH⟩
+    · split
+      · exact ⟨h, hist_quiet hH (by intro o ho; simp at ho; subst ho; rfl)⟩
+      · exact ⟨(step_spec ops mq.m i h).1, step_hist ops mq.m i hist h hH⟩
+  | connectDone err =>
+    simp only
+    split
+    · exact ⟨h, by simpa using hH⟩
+    · split
+      · exact ⟨h, hist_quiet hH (by intro o ho; simp at ho; subst ho; rfl)⟩
+      · obtain ⟨k, hk⟩ := replay_is_run_of_prefix ops { mq.m with server := .opened } (.start :: mq.q)
+        simp only [hk]
+        have h0 : MuxInv ({ mq.m with server := .opened } : Mux σ) := h
+        exact ⟨inv_run ops _ h0 _, hist_run ops _ hist h0 hH _⟩
+
+private theorem runQ_keeps (mq : MuxQ σ) (hist : List QOut) (h : MuxInv mq.m) (hH : Hist mq.m.streams hist)
+    (xs : List QInQ) :
+    MuxInv (runQ ops mq xs).1.m ∧ Hist (runQ ops mq xs).1.m.streams (hist ++ (runQ ops mq xs).2) := by
+  have gen : ∀ (xs : List QInQ) (mq : MuxQ σ) (acc hist : List QOut), MuxInv mq.m → Hist mq.m.streams (hist ++ acc) →
+      MuxInv (xs.foldl (fun (a : MuxQ σ × List QOut) x => ((stepQ ops a.1 x).1, a.2 ++ (stepQ ops a.1 x).2)) (mq, acc)).1.m ∧
+      Hist (xs.foldl (fun (a : MuxQ σ × List QOut) x => ((stepQ ops a.1 x).1, a.2 ++ (stepQ ops a.1 x).2)) (mq, acc)).1.m.streams
+        (hist ++ (xs.foldl (fun (a : MuxQ σ × List QOut) x => ((stepQ ops a.1 x).1, a.2 ++ (stepQ ops a.1 x).2)) (mq, acc)).2) := by
+    intro xs
+    induction xs with
+    | nil => intro mq acc hist h hH; exact ⟨h, hH⟩
+    | cons x t ih =>
+      intro mq acc hist h hH
+      simp only [List.foldl_cons]
+      have hs := stepQ_keeps ops mq x (hist ++ acc) h hH
+      exact ih _ _ hist hs.1 (by simpa [List.append_assoc] using hs.2)
+  have := gen xs mq [] hist h (by simpa using hH)
+  simpa [runQ] using this
+
+private theorem initQ_inv (connected : Bool) : MuxInv (MuxQ.init ops connected).m := by
+  cases connected
+  · exact init_inv ops
+  · exact init_inv ops
+
+/-- ids stay unique and pairs keep their class also when the layer has to open the server connection itself: events that
+    arrive while it waits are buffered and replayed (until an assertion stops the replay), a failed connect ends the layer -/
+theorem allocated_ids_unique_with_own_connect (connected : Bool) (xs : List QInQ) :
+    ((runQ ops (MuxQ.init ops connected) xs).1.m.streams.map (·.cid)).Nodup ∧
+    ((runQ ops (MuxQ.init ops connected) xs).1.m.streams.filterMap (·.sid)).Nodup ∧
+    ∀ s ∈ (runQ ops (MuxQ.init ops connected) xs).1.m.streams, ∀ t, s.sid = some t → t % 4 = s.cid % 4 := by
+  have hinit : Hist (MuxQ.init ops connected).m.streams [] := by
+    cases connected <;> simpa [MuxQ.init, Mux.init] using (hist_nil (σ := σ))
+  obtain ⟨⟨-, hall, hc, hs⟩, -⟩ := runQ_keeps ops _ [] (initQ_inv ops connected) hinit xs
+  refine ⟨?_, ?_, fun s hm t ht => (hall s hm).1 t ht⟩
+  · rw [List.Nodup, List.pairwise_map]; exact hc
+  · rw [List.Nodup, List.pairwise_filterMap]
+    refine hs.imp ?_
+    intro a b h x hx y hy e; subst e
+    exact h x (by simpa using hx) (by simpa using hy)
+
+/-- `no_data_or_reset_after_fin_or_reset` for the layer including its own connect phase -/
+theorem no_data_or_reset_after_fin_or_reset_with_own_connect (connected : Bool) (xs : List QInQ)
+    (pre post : List QOut) (o : QOut) (toClient : Bool) (id : Nat)
+    (hsplit : (runQ ops (MuxQ.init ops connected) xs).2 = pre ++ o :: post)
+    (hfin : (∃ d, o = .data toClient id d true) ∨ (∃ code, o = .reset toClient id code)) :
+    ∀ x ∈ post, (∀ d fin, x ≠ .data toClient id d fin) ∧ (∀ code, x ≠ .reset toClient id code) := by
+  have hinit : Hist (MuxQ.init ops connected).m.streams [] := by
+    cases connected <;> simpa [MuxQ.init, Mux.init] using (hist_nil (σ := σ))
+  have hH := (runQ_keeps ops _ [] (initQ_inv ops connected) hinit xs).2
+  have hs := hH.g2 (toClient, id)
+  rw [List.nil_append, hsplit, scanT_append] at hs
+  have hfo : finAt (toClient, id) o = true := by
+    rcases hfin with ⟨d, rfl⟩ | ⟨code, rfl⟩ <;> simp [finAt, finOn, target]
+  simp only [scanT, hfo, Bool.or_true, Bool.and_eq_true] at hs
+  have hall := scanT_true_all _ _ hs.2.2
+  intro x hx
+  have hx' := hall x hx
+  refine ⟨?_, ?_⟩
+  · intro d fin e; subst e; simp [sendAt, sendOn, target] at hx'
+  · intro code e; subst e; simp [sendAt, sendOn, target] at hx'
+
+/-- a failed connect of the layer itself: the client is closed, the layer is done, every later event is ignored -/
+theorem failed_own_connect_ends_layer (mq : MuxQ σ) (hw : mq.waiting = true) :
+    (stepQ ops mq (.connectDone true)).2 = [.dgram (.close .client false)] ∧
+    ∀ i, (stepQ ops (stepQ ops mq (.connectDone true)).1 (.ev i)).2 = [] := by
+  refine ⟨by simp [stepQ, hw], ?_⟩
+  intro i
+  simp [stepQ, hw, step]
 
 /-! ### the write guard of `event_to_child` (the step-local facts behind the theorem above) -/
 
